@@ -30,7 +30,21 @@ CLAIM = dict(
           "draws and by the Lean graph-search distance / walk / vector / hexagon predicates run on the implementation's "
           "outputs."),
     design="3/C11",
-    note=("Results are also required to be independent of what callers did earlier: generator histories (abandoned / "
+    note=("Hardening checklist: (1) argument kinds, (2) optional parameters (longest_dimension_first start / width / "
+          "height and concentric_hexagons start take non-default values, None and omitted defaults, positionally and by "
+          "keyword; no other function in scope has optional parameters), (3) scale, (4) histories incl. twins and two "
+          "kept Machine objects, (5) caller keeps and edits passed and returned objects, consumes generators lazily, "
+          "(6) faults: the only things these pure functions call are the random source and Machine.__contains__, both "
+          "made to fail once, (8) CPU limit on every call - all as general streams, see the rule. Not applicable: byte "
+          "strings, hashable identifiers (vertices/keys/tags), RoutingTree/BitField/constraint subclasses - no function "
+          "in scope takes them (Machine subclasses are covered); recursion depth - nothing in scope recurses; 8/16-bit "
+          "counters - nothing in scope is packed (widths 257 / 65537 are exercised anyway); (7) configuration - no "
+          "simulated machine or environment is involved beyond the Machine's size and dead chips/links, which vary; "
+          "numpy int64 arguments are used only below 2^31 and with w,h >= 1 because int64 arithmetic (overflow, "
+          "x % 0 == 0 with a warning) is not Python-int arithmetic and rig never passes numpy ints to these functions; "
+          "radius is not given as a big int (the output has 1+3r(r+1) elements); negative / zero widths stay in the "
+          "malformed stream (model comparison only). "
+          "Results are also required to be independent of what callers did earlier: generator histories (abandoned / "
           "interleaved concentric_hexagons generators) and call histories in which the caller mutates every returned "
           "list/set are judged by the same model and Lean oracles (validated, not proved: the model is a pure function). "
           "FINDING torus-tiebreak-float-rounding: the key `distance + random.random()` of shortest_torus_path is a float "
@@ -68,25 +82,56 @@ RULE = ("torus cases: for chosen (w, h, source chip) every or many destination c
         "call the caller mutates the returned object if it is a list/set/dict (append, extend, extend with itself, "
         "insert, pop, clear, reverse, item assignment, accumulate later legs into the first list); every result is "
         "snapshotted at return, compared with the pure model and judged by the same Lean oracles; the replay is the "
-        "whole history including the mutations; non-trivial = at least one mutation; "
+        "whole history including the mutations; non-trivial = at least one mutation; half of the histories hold a "
+        "TWIN trio A, A', A or A', A, A' (A' differs from A in one aspect: w or h by one, one coordinate, the z "
+        "representation, one vector component, the start, wrap on/off on one axis, radius+1, one link state), "
+        "links_between calls use one of two Machine objects the caller keeps and edits IN PLACE between calls, "
+        "list arguments the caller passed are scribbled / cleared / grown after the call and kept, results the caller "
+        "left untouched are read again at the end of the history (a changed one is judged by the Lean oracle, key "
+        "result-changed-after-return), 6% of the calls have the random source or the machine's membership test fail "
+        "once (Injected must propagate, nothing else; the following calls are judged as usual); "
+        "decoration (35% of all cases of all streams): argument kind tuple / list / one-shot iterator (where the "
+        "function only unpacks) / numpy int64 array (values < 2^31, w,h >= 1) / bool and IntEnum members as ints / "
+        "namedtuple / range, calling convention positional / keyword (documented names) / trailing defaults "
+        "omitted; Machine plain / instance of a subclass / dead links named by plain ints; "
+        "big: coordinates, starts, widths, heights around 2^31, 2^32, 2^53+1, 2^63, 2^64, 2^100 and their negatives "
+        "(small tori with huge coordinates keep the graph search; huge tori and distant mesh pairs are judged by the "
+        "Lean closed form that torusLen_eq_dist / meshLen_eq_dist prove equal to the graph distance, plus the Lean "
+        "vector oracle; vectors longer than 20000 hops are not walked); scale: per run 12 tori 1xN, Nx1, 2xN, Nx2, "
+        "3x(2N+1), Nx(N+7) with N in 1000..6000 incl. antipodal pairs, walks of thousands of hops, widths 65537 / "
+        "heights 257, mesh pairs thousands apart, a radius 30-45 (Lean hexagon oracle) and a radius 120-160 (model "
+        "comparison only); every implementation call runs under a 5 s CPU limit (did-not-return); "
         "distinct = distinct canonical JSON")
+
+
+class Injected(Exception):
+    """fault injected by the harness into something rig calls (random source, Machine.__contains__)"""
 
 
 class Rec(object):
     """stand-in for the `random` module inside rig: records what was drawn"""
 
-    def __init__(self, seed, den):
+    def __init__(self, seed, den, fault=None):
         self.rng = _random.Random(seed)
         self.den = den
         self.ks = []
         self.ts = []
+        self.fault = fault      # the n-th draw (0-based) raises Injected
+
+    def _draw(self):
+        if self.fault is not None and len(self.ks) + len(self.ts) == self.fault:
+            self.fault = None
+            raise Injected("random source failed")
 
     def random(self):
+        self._draw()
         k = self.rng.randrange(self.den)
         self.ks.append(k)
         return k / float(self.den)
 
     def randint(self, a, b):
+        self._draw()
+        a, b = int(a), int(b)
         v = self.rng.randint(a, b)
         self.ts.append(v - a)
         return v
@@ -119,9 +164,22 @@ def patched(module, obj):
         module.random = old
 
 
+_HANGS = [0]
+
+
 def call(f):
+    """one call of the implementation.  Every function of the Lean model is total, so a call that is still
+    running after 5 s of CPU time (normal: micro- to milliseconds, the largest scale cases ~0.3 s; 1 s once
+    that has happened 3 times, 0.2 s after 10 times) is reported as not having returned."""
+    from harness import common
     try:
-        return {"ok": f()}
+        with common.cpu_limit(5 if _HANGS[0] < 3 else 1 if _HANGS[0] < 10 else 0.2):
+            return {"ok": f()}
+    except common.ImplHang as e:
+        _HANGS[0] += 1
+        return {"err": "DidNotReturn " + str(e)}
+    except Injected:
+        return {"err": "Injected"}
     except ZeroDivisionError:
         return {"err": "ZeroDivisionError"}
     except KeyError:
@@ -137,7 +195,7 @@ def snap(conv, x):
     """canonical snapshot of a returned object, taken BEFORE the caller (the hook) does anything to it"""
     s = conv(x)
     if _HOOK[0] is not None:
-        _HOOK[0](x)
+        _HOOK[0](x, conv, s)
     return s
 
 
@@ -150,29 +208,105 @@ def ints(t):
 
 
 # --------------------------------------------------------------------------
+# argument kinds and calling conventions
+# --------------------------------------------------------------------------
+
+ARG_KINDS = ["tuple", "list", "iter", "numpy", "intlike", "namedtuple", "range"]
+CONVENTIONS = ["pos", "kw", "default"]
+_KEPT_ARGS = []        # the caller keeps the mutable arguments it passed (and edits them, in call histories)
+
+
+def mk(vals, kind, indexable=False):
+    """the coordinate / vector `vals` (list of ints) as the kind of object a caller may legally pass.
+    `indexable`: the function indexes its argument, so one-shot iterators are not legal there."""
+    vals = [int(a) for a in vals]
+    if kind == "list":
+        x = list(vals)
+        _KEPT_ARGS.append(x)
+        return x
+    if kind == "iter" and not indexable:
+        return iter(vals)
+    if kind == "numpy" and all(abs(a) < 2 ** 61 for a in vals):
+        import numpy
+        return numpy.array(vals, dtype=numpy.int64)
+    if kind == "intlike":
+        # bool and IntEnum members are ints
+        from rig.links import Links
+        return tuple(Links(a) if 2 <= a <= 5 else (bool(a) if a in (0, 1) else a) for a in vals)
+    if kind == "namedtuple":
+        import collections
+        return collections.namedtuple("Coord", ["x", "y", "z"][:len(vals)])(*vals)
+    if kind == "range" and len(vals) >= 2 and len(set(b - a for a, b in zip(vals, vals[1:]))) == 1 \
+            and vals[1] != vals[0]:
+        return range(vals[0], vals[-1] + (vals[1] - vals[0]), vals[1] - vals[0])
+    return tuple(vals)
+
+
+def invoke(f, names, args, conv, defaults=None):
+    """call f with `args` positionally, by keyword (documented names), or leaving out trailing arguments
+    that equal their documented default"""
+    defaults = defaults or {}
+    if conv == "kw":
+        return f(**dict(zip(names, args)))
+    if conv == "default":
+        args = list(args)
+        names = list(names)
+        while names and names[-1] in defaults and _same(args[-1], defaults[names[-1]]):
+            args.pop()
+            names.pop()
+        return f(*args)
+    return f(*args)
+
+
+def _same(a, b):
+    if a is None or b is None:
+        return a is None and b is None
+    if hasattr(a, "__next__"):
+        return False
+    try:
+        return [int(x) for x in a] == [int(x) for x in b]
+    except TypeError:
+        return a == b
+
+
+# --------------------------------------------------------------------------
 # implementation runs
 # --------------------------------------------------------------------------
 
+WALK_LIMIT = 20000      # vectors longer than this are not walked (the list would not fit)
+
+
 def run_impl(c):
-    """run the implementation on case c; returns dict of observations"""
+    """run the implementation on case c; returns dict of observations.  Optional case fields:
+    "ak" argument kind (ARG_KINDS), "conv" calling convention, "fault" index of the random draw that fails."""
     from rig import geometry
     from rig import links as rlinks
     from rig.place_and_route.route import utils as rutils
     k = c["kind"]
+    ak, conv, fault = c.get("ak", "tuple"), c.get("conv", "pos"), c.get("fault")
     o = {}
+
+    def ldf(vec, start, w, h, rec):
+        with patched(rutils, rec):
+            return call(lambda: snap(walk_json, invoke(
+                rutils.longest_dimension_first, ["vector", "start", "width", "height"],
+                [mk(vec, ak), mk(start, ak), w, h], conv, {"start": (0, 0), "width": None, "height": None})))
+
     if k in ("torus", "torus_real"):
-        s, d, w, h = tuple(c["s"]), tuple(c["d"]), c["w"], c["h"]
-        o["len"] = call(lambda: snap(int, geometry.shortest_torus_path_length(s, d, w, h)))
-        rec = Rec(c["seed"], c["den"]) if k == "torus" else _random.Random(c["seed"])
+        s, d, w, h = c["s"], c["d"], c["w"], c["h"]
+        names = ["source", "destination", "width", "height"]
+        o["len"] = call(lambda: snap(int, invoke(geometry.shortest_torus_path_length, names,
+                                                 [mk(s, ak, True), mk(d, ak, True), w, h], conv)))
+        rec = Rec(c["seed"], c["den"], fault) if k == "torus" else _random.Random(c["seed"])
         with patched(geometry, rec):
-            o["vec"] = call(lambda: snap(ints, geometry.shortest_torus_path(s, d, w, h)))
+            o["vec"] = call(lambda: snap(ints, invoke(geometry.shortest_torus_path, names,
+                                                      [mk(s, ak), mk(d, ak), w, h], conv)))
         if k == "torus":
             o["vec_ks"], o["vec_ts"] = rec.ks, rec.ts
-        if "ok" in o["vec"] and w > 0 and h > 0:
+        if "ok" in o["vec"] and w > 0 and h > 0 and sum(abs(a) for a in o["vec"]["ok"]) <= WALK_LIMIT:
             start = ((s[0] - s[2]) % w, (s[1] - s[2]) % h)
             rec2 = Rec(c["seed"] + 1, c["den"]) if k == "torus" else _random.Random(c["seed"] + 1)
-            with patched(rutils, rec2):
-                o["walk"] = call(lambda: snap(walk_json, rutils.longest_dimension_first(tuple(o["vec"]["ok"]), start, w, h)))
+            o["walk"] = ldf(o["vec"]["ok"], start, w, h, rec2)
             if k == "torus":
                 o["walk_ks"] = rec2.ks
     elif k == "torus_float":
@@ -181,31 +315,32 @@ def run_impl(c):
         with patched(geometry, Seq([FLOAT_EDGE[i] for i in c["rs"]], c["seed"])):
             o["vec"] = call(lambda: snap(ints, geometry.shortest_torus_path(s, d, w, h)))
     elif k == "mesh":
-        s, d = tuple(c["s"]), tuple(c["d"])
-        o["len"] = call(lambda: snap(int, geometry.shortest_mesh_path_length(s, d)))
-        o["vec"] = call(lambda: snap(ints, geometry.shortest_mesh_path(s, d)))
-        if "ok" in o["vec"]:
+        s, d = c["s"], c["d"]
+        names = ["source", "destination"]
+        o["len"] = call(lambda: snap(int, invoke(geometry.shortest_mesh_path_length, names,
+                                                 [mk(s, ak, True), mk(d, ak, True)], conv)))
+        o["vec"] = call(lambda: snap(ints, invoke(geometry.shortest_mesh_path, names, [mk(s, ak), mk(d, ak)], conv)))
+        if "ok" in o["vec"] and sum(abs(a) for a in o["vec"]["ok"]) <= WALK_LIMIT:
             start = (s[0] - s[2], s[1] - s[2])
-            rec2 = Rec(c["seed"], c["den"])
-            with patched(rutils, rec2):
-                o["walk"] = call(lambda: snap(walk_json, rutils.longest_dimension_first(tuple(o["vec"]["ok"]), start)))
+            rec2 = Rec(c["seed"], c["den"], fault)
+            o["walk"] = ldf(o["vec"]["ok"], start, None, None, rec2)
             o["walk_ks"] = rec2.ks
     elif k == "ldf":
-        rec = Rec(c["seed"], c["den"])
-        with patched(rutils, rec):
-            o["walk"] = call(lambda: snap(walk_json, rutils.longest_dimension_first(
-                tuple(c["v"]), tuple(c["start"]), c["w"], c["h"])))
+        rec = Rec(c["seed"], c["den"], fault)
+        o["walk"] = ldf(c["v"], c["start"], c["w"], c["h"], rec)
         o["walk_ks"] = rec.ks
     elif k == "minimise":
-        o["min"] = call(lambda: snap(ints, geometry.minimise_xyz(tuple(c["v"]))))
-        o["xyz"] = call(lambda: snap(ints, geometry.to_xyz((c["v"][0], c["v"][1]))))
+        o["min"] = call(lambda: snap(ints, invoke(geometry.minimise_xyz, ["xyz"], [mk(c["v"], ak)], conv)))
+        o["xyz"] = call(lambda: snap(ints, invoke(geometry.to_xyz, ["xy"], [mk(c["v"][:2], ak)], conv)))
     elif k == "links":
         L = rlinks.Links
         o["all"] = [int(l) for l in L]
         o["to_vector"] = [call(lambda l=l: ints(L(l).to_vector())) for l in range(6)]
         o["opposite"] = [call(lambda l=l: int(L(l).opposite)) for l in range(6)]
-        o["from_vector"] = [[x, y, call(lambda x=x, y=y: int(L.from_vector((x, y))))]
-                            for x in range(-4, 5) for y in range(-4, 5)]
+        kinds = ["tuple", "list", "iter", "numpy", "intlike", "namedtuple"]
+        o["from_vector"] = [[x, y, call(lambda x=x, y=y: int(invoke(
+            L.from_vector, ["vector"], [mk([x, y], kinds[(x * 9 + y) % len(kinds)])], ["pos", "kw"][(x + y) % 2])))]
+            for x in range(-4, 5) for y in range(-4, 5)]
     elif k == "links_wrap":
         L = rlinks.Links
         w, h = c["w"], c["h"]
@@ -221,16 +356,64 @@ def run_impl(c):
                     res.append([x, y, l, call(lambda: int(L.from_vector((bx - x, by - y))))])
         o["wrap"] = res
     elif k == "links_between":
-        from rig.place_and_route import Machine
-        L = rlinks.Links
-        m = Machine(c["w"], c["h"], dead_chips=set(tuple(p) for p in c["dead_chips"]),
-                    dead_links=set((x, y, L(l)) for x, y, l in c["dead_links"]))
-        o["lb"] = call(lambda: snap(lambda r: sorted(int(l) for l in r), rutils.links_between(tuple(c["a"]), tuple(c["b"]), m)))
+        m = get_machine(c)
+        o["lb"] = call(lambda: snap(lambda r: sorted(int(l) for l in r), invoke(
+            rutils.links_between, ["a", "b", "machine"], [mk(c["a"], ak), mk(c["b"], ak), m], conv)))
     elif k == "hex_history":
         o["hist"] = call(lambda: run_hex_history(c["ops"], c.get("fresh", True)))
     elif k == "hexagons":
-        o["hex"] = call(lambda: [ints(p) for p in geometry.concentric_hexagons(c["r"], tuple(c["start"]))])
+        o["hex"] = call(lambda: [ints(p) for p in invoke(
+            geometry.concentric_hexagons, ["radius", "start"], [c["r"], mk(c["start"], ak)], conv,
+            {"start": (0, 0)})])
     return o
+
+
+_MACHINES = {}      # slot -> Machine object kept by the caller within one call history
+
+
+class _FaultOnce(object):
+    pass
+
+
+def get_machine(c):
+    """the Machine for a links_between call.  "mach": slot -> the caller keeps ONE object per slot for the
+    whole history and edits its dead_chips / dead_links sets IN PLACE to the state the case describes;
+    "mkind": "subclass" (an instance of a subclass of Machine), "intlinks" (dead links named by plain ints);
+    "fault": the n-th membership test of the machine raises Injected once."""
+    from rig.place_and_route import Machine
+    from rig import links as rlinks
+    L = rlinks.Links
+    mkind = c.get("mkind", "plain")
+    dead_chips = set(tuple(p) for p in c["dead_chips"])
+    dead_links = set((x, y, (int(l) if mkind == "intlinks" else L(l))) for x, y, l in c["dead_links"])
+    cls = Machine
+    if mkind == "subclass" or c.get("fault") is not None:
+        class MyMachine(Machine):
+            """a user's subclass: extra state, membership test delegating to the base class"""
+            fail_at = c.get("fault")
+            tests = 0
+
+            def __contains__(self, x):
+                n = type(self).tests
+                type(self).tests = n + 1
+                if type(self).fail_at is not None and n == type(self).fail_at:
+                    type(self).fail_at = None
+                    raise Injected("machine query failed")
+                return Machine.__contains__(self, x)
+        cls = MyMachine
+    slot = c.get("mach")
+    if slot is not None and slot in _MACHINES and type(_MACHINES[slot]).__name__ == cls.__name__ \
+            and (_MACHINES[slot].width, _MACHINES[slot].height) == (c["w"], c["h"]) and c.get("fault") is None:
+        m = _MACHINES[slot]
+        m.dead_chips.clear()
+        m.dead_chips.update(dead_chips)
+        m.dead_links.clear()
+        m.dead_links.update(dead_links)
+        return m
+    m = cls(c["w"], c["h"], dead_chips=dead_chips, dead_links=dead_links)
+    if slot is not None and c.get("fault") is None:
+        _MACHINES[slot] = m
+    return m
 
 
 def run_hex_history(ops, fresh=True):
@@ -283,7 +466,10 @@ def make_mutator(how, state):
     from rig import links as rlinks
     junk = (rlinks.Links.east, (7, 7))
 
-    def mut(x):
+    def mut(x, conv=None, snapshot=None):
+        if how == "none" and isinstance(x, (list, set, dict)):
+            # the caller KEEPS this result untouched and looks at it again at the end of the history
+            state.setdefault("kept", []).append((state.get("at", 0), x, conv, snapshot))
         if isinstance(x, list):
             if how == "append":
                 x.append(junk)
@@ -338,13 +524,37 @@ def run_call_history(calls):
     importlib.reload(geometry)
     importlib.reload(rutils)
     state, obs = {}, []
+    del _KEPT_ARGS[:]
+    _MACHINES.clear()
     try:
-        for sub in calls:
+        for i, sub in enumerate(calls):
+            state["at"] = i
             _HOOK[0] = make_mutator(sub.get("mut", "none"), state)
+            n_args = len(_KEPT_ARGS)
             obs.append(run_impl(sub))
+            # the caller edits, in place, the mutable arguments it passed to this call, and keeps them
+            for j, x in enumerate(_KEPT_ARGS[n_args:]):
+                edit = sub.get("argedit", "none")
+                if edit == "scribble":
+                    x[:] = [a + 1000 + j for a in x]
+                elif edit == "clear":
+                    del x[:]
+                elif edit == "grow":
+                    x.extend([7, 7])
+        _HOOK[0] = None
+        # kept results, looked at again after everything that followed
+        for (at, x, conv, before) in state.get("kept", []):
+            try:
+                after = conv(x)
+            except Exception as e:  # noqa
+                after = "unreadable: %r" % (e,)
+            if after != before:
+                obs[at].setdefault("later", []).append({"before": before, "after": after})
     finally:
         _HOOK[0] = None
         state.clear()
+        del _KEPT_ARGS[:]
+        _MACHINES.clear()
         importlib.reload(geometry)
         importlib.reload(rutils)
     return obs
@@ -373,6 +583,8 @@ def eval_cases(ctx, cases):
 
     def V(key, what, cd):
         """a concrete failure; inside a call history the replay is the whole history and the key says so"""
+        if key == "exception-on-valid-input" and "DidNotReturn" in what:
+            key = "did-not-return"
         if cd.get("kind") == "call_history":
             i = cd["at"]
             what = ("call #%d of a call history (fresh module state, the caller mutates returned lists/sets "
@@ -401,6 +613,62 @@ def eval_cases(ctx, cases):
         in_hist = "at" in c_desc
         if in_hist:
             ctx.tag("callhist_%s_%s" % (k, c.get("mut", "none")))
+        for ch in o.get("later", []):
+            # a result the caller kept (and did not touch) reads differently after later calls; the Lean oracle
+            # judges what it reads now
+            ctx.tag("kept_result_changed")
+            what = ("the %s result %r returned by this call reads %r after the later calls of the history" % (
+                k, ch["before"], ch["after"]))
+            if k == "links_between":
+                def chk_later(r, ch=ch, what=what, c_desc=c_desc):
+                    if sorted(r) != ch["after"]:
+                        V("result-changed-after-return", what, c_desc)
+                    else:
+                        ctx.mismatch("c11.kept_result", what, c_desc)
+                ask(L("spec_links_between", a=c["a"], b=c["b"], w=c["w"], h=c["h"], dead_chips=c["dead_chips"],
+                      dead_links=c["dead_links"]), chk_later)
+            elif k in ("ldf", "torus", "mesh", "torus_real") and isinstance(ch["after"], list) and "vec" in o or k == "ldf":
+                if k == "ldf":
+                    v_, st_, w_, h_ = c["v"], c["start"], c["w"], c["h"]
+                else:
+                    v_ = o["vec"]["ok"]
+                    w_, h_ = (c["w"], c["h"]) if k != "mesh" else (None, None)
+                    st_ = [(c["s"][0] - c["s"][2]), (c["s"][1] - c["s"][2])]
+                    if w_:
+                        st_ = [st_[0] % w_, st_[1] % h_]
+
+                def chk_later2(r, what=what, c_desc=c_desc):
+                    if r is not True:
+                        V("result-changed-after-return", what, c_desc)
+                    else:
+                        ctx.mismatch("c11.kept_result", what, c_desc)
+                if isinstance(ch["after"], list):
+                    ask(L("spec_ldf", v=v_, start=st_, w=w_, h=h_, path=ch["after"]), chk_later2)
+                else:
+                    V("result-changed-after-return", what, c_desc)
+            else:
+                ctx.mismatch("c11.kept_result", what, c_desc)
+        if "ak" in c or "conv" in c:
+            ctx.tag("argkind_%s" % c.get("ak", "tuple"), "convention_%s" % c.get("conv", "pos"))
+        if c.get("mkind"):
+            ctx.tag("machine_%s" % c["mkind"])
+        if c.get("scale"):
+            ctx.tag("scale_%s" % k)
+        if c.get("mach") is not None:
+            ctx.tag("kept_machine_object")
+        if c.get("argedit"):
+            ctx.tag("passed_list_%s" % c["argedit"])
+        if c.get("fault") is not None:
+            # a fault injected by the harness: the call may fail with that fault (anything else is judged by the
+            # calls that follow in the history, which must be unaffected)
+            outcome = [v.get("err", "ok").split(" ")[0] for v in o.values() if isinstance(v, dict) and ("err" in v or "ok" in v)]
+            ctx.tag("fault_injected_%s" % ("raised" if "Injected" in outcome else "not-reached"))
+            bad = [x for x in outcome if x not in ("ok", "Injected")]
+            if bad:
+                V("exception-on-valid-input", "after an injected failure of the random source / machine query the "
+                  "call raised %r instead" % (bad,), c_desc)
+            count(c_desc, False)
+            continue
 
         def cmp(name, impl, c=c_desc):
             def fn(model):
@@ -440,13 +708,15 @@ def eval_cases(ctx, cases):
                 continue
             ctx.tag("%s_w%s_h%s" % (k, "1" if w == 1 else "2" if w == 2 else "n" if w else "-",
                                      "1" if h == 1 else "2" if h == 2 else "n" if h else "-"))
-            bad = [n for n in ("len", "vec", "walk") if "err" in o.get(n, {"err": "missing"})]
+            walked = "ok" in o["vec"] and sum(abs(a) for a in o["vec"]["ok"]) <= WALK_LIMIT
+            bad = [n for n in ("len", "vec") + (("walk",) if walked or "err" in o["vec"] else ())
+                   if "err" in o.get(n, {"err": "missing"})]
             if bad:
                 V("exception-on-valid-input", "%s raised on a valid input: %r" % (
                     bad, {n: o.get(n) for n in bad}), c_desc)
                 count(c_desc, False)
                 continue
-            n, v, walk = o["len"]["ok"], o["vec"]["ok"], o["walk"]["ok"]
+            n, v, walk = o["len"]["ok"], o["vec"]["ok"], o["walk"]["ok"] if walked else None
             if torus:
                 start = [(s[0] - s[2]) % w, (s[1] - s[2]) % h]
                 dest = [(d[0] - d[2]) % w, (d[1] - d[2]) % h]
@@ -456,10 +726,27 @@ def eval_cases(ctx, cases):
             if "walk_ks" in o:
                 ask(L("ldf", v=v, start=start, w=w, h=h, den=c["den"], ks=(o["walk_ks"] + [0, 0, 0])[:3]),
                     cmp("ldf", o["walk"]))
-            groups.setdefault((w, h, tuple(start), c.get("radius", 0)), []).append((dest, c_desc, n))
+            if c.get("nobfs"):
+                # too large for the graph search: the Lean closed form, which the theorems meshLen_eq_dist /
+                # torusLen_eq_dist prove equal to the graph distance for ALL sizes, decides
+                ctx.tag("length_by_theorem")
+
+                def chk_len(r, n=n, c_desc=c_desc, s=s, d=d, w=w, h=h):
+                    r = r.get("ok") if isinstance(r, dict) else r
+                    if r != n:
+                        V("length-not-graph-distance", "reported length %r from %r to %r (w=%r h=%r); the graph "
+                          "distance is %r (Lean closed form, theorems meshLen_eq_dist / torusLen_eq_dist)" % (
+                              n, s, d, w, h, r), c_desc)
+                ask(L("torus_len", s=s, d=d, w=w, h=h) if torus else L("mesh_len", s=s, d=d), chk_len)
+            else:
+                groups.setdefault((w, h, tuple(start), c.get("radius", 0)), []).append((dest, c_desc, n))
             ask(L("spec_vector", s=s, d=d, v=v, w=w, h=h, n=n),
                 spec_true("vector-wrong", "the reported vector %r does not have %r hops or does not lead from "
                           "source to destination" % (v, n)))
+            if not walked:
+                ctx.tag("vector_too_long_to_walk")
+                count(c_desc, True)
+                continue
             ask(L("spec_ldf", v=v, start=start, w=w, h=h, path=walk),
                 spec_true("ldf-walk-wrong", "longest_dimension_first(%r) from %r is not a walk of adjacent chips "
                           "labelled by the links taken, of |x|+|y|+|z| hops, ending at start+vector: %r" % (v, start, walk)))
@@ -608,7 +895,7 @@ def eval_cases(ctx, cases):
             ask(L("hexagons", r=c["r"], start=c["start"]), cmp("hexagons", o["hex"].get("ok")))
             if "err" in o["hex"]:
                 V("exception-on-valid-input", "concentric_hexagons raised %r" % (o["hex"],), c_desc)
-            elif c["r"] >= 0:
+            elif c["r"] >= 0 and not c.get("model_only"):
                 ask(L("spec_hexagons", r=c["r"], start=c["start"], out=o["hex"]["ok"]),
                     spec_true("hexagons-wrong", "concentric_hexagons(%d, %r) is not exactly the chips within the "
                               "radius, each once, nearest first (%d points)" % (c["r"], c["start"], len(o["hex"]["ok"]))))
@@ -859,7 +1146,7 @@ def gen_call_history(ctx, n):
                     if not degenerate:
                         b = (a[0] + rng.randrange(-3, 4), a[1] + rng.randrange(-3, 4))
                     sub = {"kind": "mesh", "s": rep(rng, a), "d": rep(rng, b), "den": den_of(rng), "seed": seed,
-                           "radius": 6}
+                           "radius": 9}
                 elif kind == "ldf":
                     if degenerate:
                         v = rng.choice([[0, 0, 0], [0, 0, 0], [1, 1, 1], [-2, -2, -2]])
@@ -880,6 +1167,8 @@ def gen_call_history(ctx, n):
                         b = ((a[0] + vv[0]) % w, (a[1] + vv[1]) % h)
                     sub = {"kind": "links_between", "w": w, "h": h, "dead_chips": dc, "dead_links": dl,
                            "a": list(a), "b": list(b)}
+                    if rng.random() < 0.5:
+                        sub["mach"] = rng.randrange(2)     # one of two machine objects the caller keeps
                 elif kind == "hexagons":
                     sub = {"kind": "hexagons", "r": 0 if degenerate else rng.randrange(0, 5), "start": list(a)}
                 else:
@@ -889,7 +1178,173 @@ def gen_call_history(ctx, n):
                                    [rng.choice(["close", "drop"]), 0]]}
             sub["mut"] = sticky or rng.choice(muts)
             calls.append(sub)
+        if rng.random() < 0.5:
+            calls = add_twins(rng, calls, w, h)
         cases.append({"kind": "call_history", "calls": calls})
+    return cases
+
+
+BIG = [2 ** 31, 2 ** 32, 2 ** 53 + 1, 2 ** 63, 2 ** 64, 2 ** 100, -2 ** 31 - 1, -2 ** 63, -2 ** 64 - 1]
+
+
+def _maxabs(x):
+    if isinstance(x, bool) or x is None or isinstance(x, str):
+        return 0
+    if isinstance(x, int):
+        return abs(x)
+    if isinstance(x, dict):
+        return max([_maxabs(v) for k, v in x.items() if k != "seed"] + [0])
+    if isinstance(x, list):
+        return max([_maxabs(v) for v in x] + [0])
+    return 0
+
+
+def decorate(rng, cases, p=0.35):
+    """give a share of the cases a non-default argument kind and calling convention (and, inside call
+    histories, edits of the passed arguments, machine kinds, kept machine objects and injected faults)"""
+    def one(c, in_hist):
+        if c["kind"] in ("torus", "mesh", "ldf", "minimise", "hexagons", "links_between") and rng.random() < p:
+            c["ak"] = rng.choice(ARG_KINDS)
+            if c["ak"] == "numpy" and (_maxabs(c) >= 2 ** 31 or any(isinstance(c.get(q), int) and c[q] <= 0 for q in ("w", "h"))):
+                c["ak"] = "list"      # int64 arithmetic is not Python-int arithmetic out there: not a legal int kind
+            c["conv"] = rng.choice(CONVENTIONS)
+            if in_hist and c["ak"] == "list":
+                c["argedit"] = rng.choice(["scribble", "clear", "grow", "none"])
+        if c["kind"] == "links_between" and rng.random() < 0.5:
+            c["mkind"] = rng.choice(["subclass", "intlinks", "plain"])
+        if in_hist and c["kind"] in ("torus", "mesh", "ldf", "links_between") and rng.random() < 0.06:
+            c["fault"] = rng.randrange(0, 5)
+    for c in cases:
+        if c["kind"] == "call_history":
+            for sub in c["calls"]:
+                one(sub, True)
+        else:
+            one(c, False)
+    return cases
+
+
+def twin(rng, sub, w, h):
+    """a copy of the call that differs in exactly one aspect"""
+    t = json.loads(json.dumps(sub))
+    k = t["kind"]
+    if k == "torus":
+        what = rng.choice(["w", "h", "d", "srep"])
+        if what == "w":
+            t["w"] += 1
+        elif what == "h":
+            t["h"] += 1
+        elif what == "d":
+            t["d"][rng.randrange(2)] += rng.choice([1, -1])
+        else:
+            z = rng.choice([1, -2, 7])
+            t["s"] = [a + z for a in t["s"]]
+    elif k == "mesh":
+        t["d"][rng.randrange(3)] += rng.choice([1, -1])
+    elif k == "ldf":
+        what = rng.choice(["v", "start", "w", "h"])
+        if what == "v":
+            t["v"][rng.randrange(3)] += rng.choice([1, -1])
+        elif what == "start":
+            t["start"][rng.randrange(2)] += 1
+        elif what == "w":
+            t["w"] = None if t["w"] else w
+        else:
+            t["h"] = None if t["h"] else h
+    elif k == "minimise":
+        t["v"][rng.randrange(3)] += 1
+    elif k == "hexagons":
+        if rng.random() < 0.5:
+            t["r"] += 1
+        else:
+            t["start"][rng.randrange(2)] -= 1
+    elif k == "links_between":
+        # one link of the machine changes state (the same kept machine object is edited in place)
+        e = [t["a"][0], t["a"][1], rng.randrange(6)]
+        if e in t["dead_links"]:
+            t["dead_links"].remove(e)
+        else:
+            t["dead_links"].append(e)
+    return t
+
+
+def add_twins(rng, calls, w, h):
+    """A, A', A (or A', A, A') for one call of the history; links_between calls alternate between two
+    kept machine objects"""
+    i = rng.randrange(len(calls))
+    a = calls[i]
+    if a["kind"] == "hex_history":
+        return calls
+    b = twin(rng, a, w, h)
+    if a["kind"] == "links_between":
+        a["mach"] = 0
+        b["mach"] = rng.choice([0, 1])        # the same object edited in place, or a second machine
+    trio = [a, b, json.loads(json.dumps(a))] if rng.random() < 0.5 else [b, a, json.loads(json.dumps(b))]
+    for x in trio:
+        x.setdefault("mut", "none")
+    return calls[:i] + trio + calls[i + 1:]
+
+
+def gen_big(ctx, n):
+    """coordinates, starts, widths and heights around 2^31, 2^32, 2^53+1, 2^63, 2^64, 2^100 (Python ints are
+    unbounded and so are the model's)"""
+    rng = ctx.rng
+    cases = []
+    for _ in range(n):
+        B, B2 = rng.choice(BIG), rng.choice(BIG)
+        j = lambda: rng.randrange(-3, 4)
+        kind = rng.choice(["torus_small", "torus_small", "torus_big", "torus_big", "mesh_far", "mesh_near", "ldf",
+                           "minimise", "hexagons"])
+        seed = rng.randrange(1 << 30)
+        if kind == "torus_small":           # huge coordinates on an ordinary torus: graph search still applies
+            w, h = rng.randrange(1, 9), rng.randrange(1, 9)
+            cases.append({"kind": "torus", "w": w, "h": h, "s": [B + j(), B2 + j(), rng.choice([0, B, B2])],
+                          "d": [B2 + j(), j(), rng.choice([0, B])], "den": den_of(rng), "seed": seed})
+        elif kind == "torus_big":           # huge torus
+            w, h = abs(B) + rng.randrange(0, 3), rng.choice([abs(B2) + 1, rng.randrange(1, 6)])
+            near = rng.random() < 0.6
+            d = [j(), j(), 0] if near else [rng.randrange(w), rng.randrange(h), 0]
+            cases.append({"kind": "torus", "w": w, "h": h, "s": [j() + rng.choice([0, w - 1, w]), j(), j()], "d": d,
+                          "den": den_of(rng), "seed": seed, "nobfs": True})
+        elif kind == "mesh_far":
+            cases.append({"kind": "mesh", "s": [j(), B + j(), j()], "d": [B2 + j(), j(), B + j()],
+                          "den": den_of(rng), "seed": seed, "nobfs": True, "radius": 0})
+        elif kind == "mesh_near":
+            cases.append({"kind": "mesh", "s": [B + j(), B2 + j(), B], "d": [B + j(), B2 + j(), B + j()],
+                          "den": den_of(rng), "seed": seed, "nobfs": True, "radius": 0})
+        elif kind == "ldf":
+            cases.append({"kind": "ldf", "v": [j(), j(), j()], "start": [B + j(), B2 + j()],
+                          "w": rng.choice([None, 3, abs(B) + 1]), "h": rng.choice([None, 2, abs(B2) + 2]),
+                          "den": den_of(rng), "seed": seed})
+        elif kind == "minimise":
+            cases.append({"kind": "minimise", "v": [B + j(), B2 + j(), rng.choice([B, B2, 0]) + j()]})
+        else:
+            cases.append({"kind": "hexagons", "r": rng.randrange(0, 4), "start": [B + j(), B2 + j()]})
+    return cases
+
+
+def gen_scale(ctx):
+    """a handful of cases far beyond the usual size: thin tori thousands of chips long, walks of thousands
+    of hops, distant mesh pairs, large radii"""
+    rng = ctx.rng
+    cases = []
+    N = rng.randrange(1000, 6000)
+    for (w, h) in [(1, N), (N, 1), (2, N + 1), (N + 2, 2), (3, 2 * N + 1), (N, N + 7)]:
+        for _ in range(2):
+            a = (rng.randrange(w), rng.randrange(h))
+            b = rng.choice([(rng.randrange(w), rng.randrange(h)), ((a[0] + w // 2) % w, (a[1] + h // 2) % h),
+                            ((a[0] + (w - 1) // 2) % w, (a[1] + (h + 1) // 2) % h)])
+            cases.append({"kind": "torus", "w": w, "h": h, "s": rep(rng, a, w, h), "d": rep(rng, b, w, h),
+                          "den": den_of(rng), "seed": rng.randrange(1 << 30), "nobfs": True})
+    for _ in range(2):
+        cases.append({"kind": "mesh", "s": rep(rng, (0, 0)), "d": rep(rng, (rng.randrange(-N, N), rng.randrange(-N, N))),
+                      "den": den_of(rng), "seed": rng.randrange(1 << 30), "nobfs": True, "radius": 0})
+        cases.append({"kind": "ldf", "v": [rng.randrange(-N, N), rng.choice([0, N, -N]), rng.randrange(-N, N)],
+                      "start": [rng.randrange(9), rng.randrange(9)], "w": rng.choice([None, 1, 2, 65537]),
+                      "h": rng.choice([None, 1, 257, N]), "den": den_of(rng), "seed": rng.randrange(1 << 30)})
+    cases.append({"kind": "hexagons", "r": rng.randrange(30, 45), "start": [rng.randrange(-9, 10), 3]})
+    cases.append({"kind": "hexagons", "r": rng.randrange(120, 160), "start": [0, 0], "model_only": True})
+    for c in cases:
+        c["scale"] = True
     return cases
 
 
@@ -936,6 +1391,8 @@ def run(ctx):
         cases += gen_malformed(ctx, 60)
         cases += gen_hex_history(ctx, 400 * mult, 7)
         cases += gen_call_history(ctx, 500 * mult)
+        cases += gen_big(ctx, 300 * mult)
+        cases += gen_scale(ctx)
         cases += gen_float_edge(ctx, [(3, 3), (4, 4), (2, 5), (5, 2), (1, 4), (6, 3)])
     else:
         allsizes = [(w, h) for w in range(1, 17) for h in range(1, 17)]
@@ -950,8 +1407,12 @@ def run(ctx):
         cases += gen_malformed(ctx, 500)
         cases += gen_hex_history(ctx, 6000, 12)
         cases += gen_call_history(ctx, 8000)
+        cases += gen_big(ctx, 6000)
+        for _ in range(4):
+            cases += gen_scale(ctx)
         cases += gen_float_edge(ctx, [(w, h) for w in range(1, 7) for h in range(1, 7)])
         ctx.exhaustive = True
+    decorate(ctx.rng, cases)
     for i in range(0, len(cases), 4000):
         eval_cases(ctx, cases[i:i + 4000])
 
